@@ -50,7 +50,7 @@ JudgeObs(c, e, o) ==
   ELSE Semantics(c, e, o)
 
 Judge(c) ==
-  LET s == [r |-> c.r, ov |-> c.ov, inv |-> c.inv, frame |-> c.frame, ia |-> c.ia]
+  LET s == [r |-> c.r, ov |-> c.ov, inv |-> c.inv, frame |-> c.frame, ia |-> c.ia, tA |-> -1]
       e == Step(s)
       bad == { k \in 1..Len(c.obs) : JudgeObs(c, e, c.obs[k]) # "ok" }
   IN IF bad = {} THEN "ok"
